@@ -73,15 +73,15 @@ def mc_and_gen(cfgs, tier, timeout):
     """run each MC config; returns (stats, behaviours, cex behaviours)"""
     stats, behs, cex = [], [], []
     for cfg in cfgs:
-        r = run_tlc("MCWallet.tla", cfg, "mc_" + cfg.replace(".cfg", ""), extra=["-continue"], timeout=timeout)
+        r = run_tlc("MCWallet.tla", cfg, "mc_" + cfg.replace(".cfg", ""), timeout=timeout)
         if r["error"] and not r["completed"]:
             log(r["out"][-3000:])
             raise ToolError("TLC failed on " + cfg)
-        b = tlc_printed(r["out"], "REPLAY")
-        c = tlc_printed(r["out"], "CEX")
+        b = parse_printed(r["printed"]["REPLAY"], "REPLAY")
+        c = parse_printed(r["printed"]["CEX"], "CEX")
         stats.append({"cfg": cfg, "states": r["states"], "transitions": r["transitions"], "depth": r["depth"],
-                      "completed": r["completed"], "violated": sorted(set(x for t in r["violated"] for x in t if x)),
-                      "behaviours_emitted": len(b), "cex": len(c), "wall_s": round(r["wall_s"], 1),
+                      "completed": r["completed"], "violated": sorted(set(x.get("inv", "?") for x in c)),
+                      "behaviours_emitted": r["printed_counts"]["REPLAY"], "cex": r["printed_counts"]["CEX"], "wall_s": round(r["wall_s"], 1),
                       "action_coverage": r["coverage"]})
         behs += b
         cex += c
